@@ -419,6 +419,11 @@ def build(k, skel: Skel):
         b.funcs[name] = f
         functions[name] = stochastic(f) if role == "stoch" else f
     b.model = Model(n_periods=skel.n_periods, functions=functions, choices=choices, states=states)
+    if k.mode == "native":
+        # sampled filters that leave a period without any admissible combination: not a supported model
+        from .solve import skip_unsupported_filters
+
+        skip_unsupported_filters(k, b, skel)
     return b
 
 
